@@ -11,6 +11,7 @@
 #include <map>
 #include <memory>
 #include <sstream>
+#include <thread>
 
 namespace engine
 {
@@ -21,6 +22,8 @@ class Uci
         "rnbqkbnr/pppppppp/8/8/8/8/PPPPPPPP/RNBQKBNR w KQkq - 0 1";
 
     Uci();
+
+    ~Uci();
 
     void loop();
 
@@ -53,7 +56,13 @@ class Uci
 
     bool staticeval_command(std::istringstream& istream);
 
+    /**
+     * @brief Stops the running search (if any) and waits for its thread.
+     */
+    void finish_search();
+
     std::shared_ptr<Search> search;
+    std::thread search_thread;
     Position position;
     PositionScorer scorer;
     tt::TTable ttable;
